@@ -4,7 +4,8 @@
   Model: MW.Model.Api (the partial-operation skeleton of every function of the anchored files, in the
   language of MW.Model.ApiDsl). Facts: MW.Gen.Sites (regenerated from the Go source on every run).
   Lemmas: MW.Lemmas.ApiSound (soundness of the static checker), MW.Lemmas.ApiSafe* (the checker accepts
-  every entry point; reflective proofs evaluated by the kernel).
+  every entry point; reflective proofs evaluated by the kernel), MW.Lemmas.ApiStall (inversion of `run`,
+  the output step of filterTx never returns).
 
   What `run` can end in:  `.ok _` (the handler answered: a response or an error class in `out`),
   `.error (.contract f)` (an answer of code OUTSIDE the anchored files broke the contract the skeleton
@@ -15,9 +16,11 @@
 -/
 import MW.Lemmas.ApiSound
 import MW.Lemmas.ApiSafe
+import MW.Lemmas.ApiStall
 import MW.Gen.Sites
 namespace MW.Props.C19
 open MW.Model.Api MW.Lemmas.ApiSound MW.Lemmas.ApiSafe
+open MW.Lemmas.ApiStall (supportedOracle)
 
 /-- TIE B. The skeleton model contains exactly the partial-operation sites (index, slice, map assignment,
     dereference of a possibly-nil result, type assertion, request-field conversion) that the extractor finds
@@ -123,18 +126,44 @@ structure C16Contract (O : Oracle) : Prop where
 example : C16Contract (fun f _ => if f = "utils.ParsePkScript" then [0, 1, 1] else []) :=
   ⟨fun _ => Or.inr (by simp)⟩
 
-/-- NO STALL, full statement (kept type-checked): under C16's contract and a keystore lookup that does not
-    fail, one step of filterTx's output loop never leaves the loop with an error – so a block is never
-    refused because of the script of one of its outputs. -/
-def no_stall_full : Prop :=
+/-- NO STALL, full statement: under C16's contract and a keystore lookup that does not fail, one step of
+    filterTx's output loop never leaves the loop with an error – so a block is never refused because of the
+    script of one of its outputs. For EVERY evaluation budget `n`, BOTH branches: an unsupported script is
+    skipped (`continue`); for a supported script `merr = nil`, so `if merr != nil { return }` is not taken
+    and the step ends normally. (The run can still end in `Fault.contract "utils.ParsePkScript"` – success
+    with a nil script class – or out of budget; neither is a return.) -/
+theorem no_stall_full :
   ∀ (O : Oracle) (n : Nat) (σ : State), C16Contract O →
     (∀ τ, (O "w.ksmgr.GetManagedAddressByScriptHash" τ).getD 1 0 = 0) →
-    ∀ τ, run prog O n filterTxOutStep σ ≠ .ok (.retd τ)
+    ∀ τ, run prog O n filterTxOutStep σ ≠ .ok (.retd τ) :=
+  fun O n σ hc hk τ => MW.Lemmas.ApiStall.filterTxOutStep_no_retd prog O n σ hc.parse_total hk τ
+
+/-- NO STALL, the whole loop: the statement `for … range tx.TxOut { filterTxOutStep }` exactly as it stands in
+    `f_filterTx` (MW.Model.Api, with its declared invariant) is never left by `return`, for any number of
+    outputs, any budget, any oracle meeting C16's contract and a keystore lookup that does not fail: filterTx
+    goes on to its classification of the transaction whatever the scripts of the outputs are. -/
+theorem no_stall_loop (O : Oracle) (n : Nat) (σ : State) (hc : C16Contract O)
+    (hk : ∀ τ, (O "w.ksmgr.GetManagedAddressByScriptHash" τ).getD 1 0 = 0) :
+    ∀ τ, run prog O n (.loop "ft.o" "tx.TxOut" [.nz "rec"] filterTxOutStep) σ ≠ .ok (.retd τ) :=
+  fun τ => MW.Lemmas.ApiStall.filterTxOutLoop_no_retd prog O n σ _ hc.parse_total hk τ
+
+/-- the hypotheses of `no_stall_full` are jointly satisfiable by an oracle that takes the supported-script
+    branch (`MW.Lemmas.ApiStall.supportedOracle`: ps = 1, pserr = 0; ma = 1, merr = 0) -/
+example : C16Contract supportedOracle ∧ (∀ τ, (supportedOracle "w.ksmgr.GetManagedAddressByScriptHash" τ).getD 1 0 = 0) ∧
+    ∀ σ, (supportedOracle "utils.ParsePkScript" σ).getD 1 0 = 0 ∧ (supportedOracle "utils.ParsePkScript" σ).getD 0 0 ≠ 0 :=
+  ⟨⟨fun _ => Or.inl (by simp [supportedOracle])⟩, fun _ => by simp [supportedOracle], fun _ => by simp [supportedOracle]⟩
+
+/-- … and for it the step really runs through that branch and ends normally (budget 7 = depth of the
+    branch; 6 ends in `Fault.fuel`), with `ps`, `ma` set and `err` untouched: `no_stall_full` is not vacuous
+    on the branch it adds to `no_stall_partial` -/
+example : ∃ τ, run prog supportedOracle 7 filterTxOutStep (fun _ => 0) = .ok (.norm τ) ∧
+    τ "ps" = 1 ∧ τ "ma" = 1 ∧ τ "merr" = 0 ∧ τ "err" = 0 := by
+  simp [supportedOracle, filterTxOutStep, run, setMany, onOk, Clause.eval, Atom.eval, Cond.eval, nz, State.set, V, D, ifR]
 
 /-- NO STALL (partial: the unsupported-script branch). When ParsePkScript reports ErrUnsupportedScript the
     step ends normally with `err` untouched: the loop goes on to the next output and filterTx / filterBlock
-    do not fail because of that script. Missing for `no_stall_full`: the supported-script branch (needs the
-    symbolic execution of five more statements; nothing conceptual). -/
+    do not fail because of that script. (Kept; `no_stall_full` above now covers both branches and every
+    budget.) -/
 theorem no_stall_partial (O : Oracle) (n : Nat) (σ : State)
     (hu : (O "utils.ParsePkScript" σ).getD 1 0 ≠ 0 ∧ (O "utils.ParsePkScript" σ).getD 2 0 ≠ 0) :
     ∀ τ, run prog O (n + 6) filterTxOutStep σ ≠ .ok (.retd τ) := by
